@@ -124,7 +124,10 @@ def build(spec: dict) -> dict:
             n = max(1, min(n, len(body) - pos))
             bounds.append(len(out))  # start of a chunk-size line
             # (chunk_pad: sizes written with leading zeros -- legal: chunk-size = 1*HEXDIG)
-            out += (b"%0" + str(int(spec["chunk_pad"])).encode() + b"x%s\r\n" if spec.get("chunk_pad") else b"%x%s\r\n") % (n, ext if i % 2 == 0 else b"")
+            size = (b"%0" + str(int(spec["chunk_pad"])).encode() + b"x" if spec.get("chunk_pad") else b"%x") % n
+            if spec.get("chunk_hex_upper"):
+                size = size.upper()  # HEXDIG is case-insensitive
+            out += size + (ext if i % 2 == 0 else b"") + b"\r\n"
             offs[pos] = len(out)
             bounds.append(len(out))  # start of chunk data
             out += body[pos : pos + n] + b"\r\n"
